@@ -18,7 +18,9 @@ import itertools
 import z3
 
 from . import types_vc as T
-from pyvc.core import SymObj, PDict, fresh_int, Unsupported, FuncVal, same_value
+from pyvc.core import SymObj, PDict, fresh_int, Unsupported, FuncVal, same_value, HARNESS_ERRORS
+
+zb = T.zb
 from pyvc import xbuf as XB
 
 STRUCT = T.STRUCT
@@ -104,7 +106,7 @@ def vc_struct_state():
                             it.oblige(st2, "post", f"field{k}_read_through_its_type[{lab}]", z3.BoolVal(okr))
                             if okr:
                                 it.oblige(st2, "post", f"field{k}_read_address[{lab}]", res[3] == want)
-            except Unsupported as e:
+            except HARNESS_ERRORS as e:
                 vc_struct_state.undecided.append((lab, str(e)[:160]))
             obs += it.obligations
     vc_struct_state.interps = its
@@ -156,7 +158,7 @@ def vc_struct_to_json():
                         if okr:
                             want = o + (offs.items[k] if k in dyn[1:] else F[k].attrs["offset"])
                             ob(f"field{k}_read_at_documented_address", v[3] == want)
-            except Unsupported as e:
+            except HARNESS_ERRORS as e:
                 vc_struct_to_json.undecided.append((lab, str(e)[:160]))
             obs += it.obligations
     vc_struct_to_json.interps = its
@@ -164,3 +166,108 @@ def vc_struct_to_json():
 
 
 T.group("struct_to_json", vc_struct_to_json, [(STRUCT, "Struct._to_json"), (STRUCT, "Field.__get__"), (STRUCT, "Field.get_offset")], ["C19"])
+
+
+# ------------------------------------------------------------------------------------------------ Array._update (C10 / C11)
+def vc_array_update():
+    """Array._update through a view (only HandleInv known), value = an array-like of which only the shape is observed, or an
+    integer length: when the number of items differs from the array's, ValueError is raised and nothing is written (C11: the size
+    of an instance cannot change after creation); otherwise the object is rewritten by exactly one Array._to_buffer at the
+    object's own (buffer, offset) with the value passed through -- whose frame is the object's extent (groups array_writer*)."""
+    from contracts import capi as K
+    from . import types2_vc as T2
+    from pyvc.core import State
+
+    ARR = T.ARR
+    obs = []
+    its = []
+    for rank, mask in K.array_masks():
+        if rank > 2:
+            continue
+        order = tuple(range(rank))
+        lab = f"{'x'.join('N' if m else 's' for m in mask)}"
+        it = T.new_interp()
+        its.append(it)
+        it.class_home.update({"Array": ARR, "NumpyScalar": "xobjects/scalar.py"})
+        i64 = T.int64_scalar()
+        it.extern_names = {"Int64": i64, "object": T.ObjectBuiltin()}
+        XB.install_int64(it, i64)
+        st0 = State()
+        cls = T.array_class(st0, rank, mask, True, order)
+        sp = cls.spec
+        w, D, ndyn = sp["w"], sp["D"], sp["ndyn"]
+        tc = T.TypeContractObj("Item", w, st0)
+        item = tc.as_symobj()
+        item.absent = {"_dtype", "_update"}
+        cls.attrs["_itemtype"] = item
+        buf = XB.XBuf("buf")
+        o = fresh_int("offset")
+        hdr_shape = []
+        j = 0
+        for k in range(rank):
+            if mask[k]:
+                hdr_shape.append(XB.W8(buf.mem, o + 8 + 8 * j))
+                j += 1
+            else:
+                hdr_shape.append(sp["dims"][k])
+        n_items = T.prod(hdr_shape)
+        pre = list(st0.pc) + [o >= 0, buf.cap >= 0, buf.cap < 2 ** 62, o + D + w * n_items <= buf.cap] + [s >= 0 for s in hdr_shape]
+        dstr = T.doc_strides(hdr_shape, order, w)
+        if ndyn and rank > 1:
+            pre += [XB.W8(buf.mem, o + 8 + 8 * ndyn + 8 * k) == dstr[k] for k in range(rank)]
+        m0 = buf.mem
+
+        def ov_to_buffer(i, st, f, a, k, nd):
+            st.recorded = getattr(st, "recorded", []) + [("rewrite", a[0], a[1], a[2])]
+            yield st, None
+        it.overrides[(ARR, "Array._to_buffer")] = ov_to_buffer
+        con = T._contract(ARR, "Array._from_buffer", [])
+        it.contract = T._contract(ARR, "Array._update", [])
+        try:
+            for st, out in it.exec_function(con, {"cls": cls, "buffer": buf, "offset": o}, pre=pre):
+                h = out[1]
+                it.obligations = []  # HandleInv of the view belongs to group array_handle
+                it.contract = T._contract(ARR, "Array._update", [])
+                vshape = tuple(fresh_int(f"v{k}") for k in range(rank))
+                forms = {"array_like": (T2.ShapedValue(vshape), T.prod(vshape), [s >= 0 for s in vshape])}
+                nlen = fresh_int("new_length")
+                forms["integer_length"] = (nlen, nlen, [])
+                # another xobject array of the same class (any size, any buffer): only its _shape decides
+                other = SymObj("instance", {"__class__": cls, "_buffer": XB.XBuf("other"), "_offset": fresh_int("other_offset"), "_size": fresh_int("other_size"),
+                                            "_shape": vshape})
+                other.closed = True
+                other.absent = {"shape"}
+                forms["same_class_array"] = (other, T.prod(vshape), [s >= 0 for s in vshape] + [other.attrs["_offset"] >= 0, other.attrs["_size"] >= 0,
+                                                                                                other.attrs["_offset"] + other.attrs["_size"] <= other.attrs["_buffer"].cap])
+                for form, (val, count, vpre) in forms.items():
+                    for same in (True, False):
+                        stq = st.clone()
+                        for f_ in vpre:
+                            stq.assume(f_)
+                        stq.assume(count == n_items if same else count != n_items)
+                        rec0 = len(getattr(stq, "recorded", []))
+                        for st2, res in it.call_function(stq, FuncVal(ARR, "Array._update", it._relocate(stq, h)), [val], {}, None):
+                            b = it._relocate(st2, buf)
+                            ev = getattr(st2, "recorded", [])[rec0:]
+                            ob = lambda c, g: it.oblige(st2, "post", f"{c}[{lab}:{form}]", g if not isinstance(g, bool) else z3.BoolVal(g))
+                            if not same:
+                                raised = res.__class__.__name__ == "_NoReturn" and st2.pending_raise[1] == "ValueError"
+                                ob("different_item_count_raises", bool(raised))
+                                ob("different_item_count_writes_nothing", len(ev) == 0 and z3.eq(b.mem, m0))
+                                continue
+                            # stated over the frame, not over the implementation: whatever the method does (rewrite through the class's
+                            # writer, a byte copy, ...), it writes only into this object's own extent
+                            rw = [e for e in ev if e[0] == "rewrite"]
+                            ob("rewrites_only_at_its_own_buffer_and_offset",
+                               z3.And(*[zb(same_value(e[2], o)) for e in rw]) if all(getattr(e[1], "uid", None) == buf.uid for e in rw) else False)
+                            ob("value_passed_through", all(e[3] is val or same_value(e[3], val) is True for e in rw))
+                            ext = D + w * n_items
+                            ob("nothing_outside_the_object_written", T.forall_x(lambda x: z3.Implies(z3.Or(x < o, x >= o + ext), b.mem[x] == m0[x])))
+        except HARNESS_ERRORS as e:
+            vc_array_update.undecided.append((lab, str(e)[:160]))
+        obs += it.obligations
+    vc_array_update.interps = its
+    return obs
+
+
+T.group("array_update", vc_array_update, [(T.ARR, "Array._update"), (T.ARR, "Array.__len__"), (T.ARR, "get_shape_from_array"), ("xobjects/typeutils.py", "is_integer")], ["C10", "C11"])
